@@ -226,7 +226,15 @@ func verifC18e() { // two constructors with result objects (possibly the same Ou
 		maxScopes: 1, maxParams: 0, maxResults: 1, pForms: 1, rForms: 2, names: 2, as: true, asObj: true, faults: 1, invParams: 0, lateRegs: 1})
 }
 
+func verifC18f() { // As lists of one to three interfaces on positional results, unnamed, named and grouped
+	// (As next to a grouped field of a result object is documented as unsupported and dig ignores it there: not drawn)
+	verifC18run(&vProfile{name: "C18f", clauses: []string{"C18."},
+		maxScopes: 1, maxParams: 0, maxResults: 2, pForms: 1, rForms: 1, names: 2, groups: true, as: true, as3: true,
+		faults: 1, invParams: 0})
+}
+
 func init() {
+	verifEntries["verifC18f"] = verifC18f
 	verifEntries["verifC18e"] = verifC18e
 	verifEntries["verifC18d"] = verifC18d
 	verifEntries["verifC18a"] = verifC18a
